@@ -16,17 +16,35 @@ RULE = ("plain text: EVERY string up to length L over {a, space, tab, {, }, %, #
         "forms incl. mixtures at the end); random templates of text + comments + raw blocks "
         "whose bodies contain delimiter look-alikes ({{ x }}, {% if %}, {# #}, {% raw %}, "
         "near-miss endraw tags) with tag-internal whitespace variants and the documented '-' "
-        "forms ({#- -#}, {% raw -%}). distinct = each exhaustive string that contains a line "
-        "break or a partial delimiter character (len<=5) / each random source; a case is "
+        "forms ({#- -#}, {% raw -%}). escaping/finalize dimension: the random text alphabet "
+        "contains & < > ' \" and markup fragments; every random text / template is additionally "
+        "rendered under 4 drawn (newline config, mode) combinations and a fixed set of short "
+        "texts over {a & < > ' \" \\n} and 6 templates under EVERY mode x all 6 newline configs, "
+        "mode = environment autoescape (False | True | select_autoescape) x enclosing block "
+        "(none | {% autoescape true %} | false | an expression decided at render time, flag "
+        "True and False, with and without surrounding text) x finalize (none | plain | "
+        "pass_context | pass_eval_context | pass_environment callable that brackets its "
+        "argument): text, comments and raw bodies are not expression results, so the output "
+        "must be the same as without escaping/finalize. distinct = each exhaustive string that contains a line "
+        "break or a partial delimiter character (len<=5) / each random source / each (source, "
+        "mode) cell of the systematic mode table; a case is "
         "non-trivial when it contains a line break, a delimiter character or a tag")
-TECHNIQUE = "reference-model monitor (newline split/join model) over exhaustive short strings + random templates"
+TECHNIQUE = ("reference-model monitor (newline split/join model) over exhaustive short strings + "
+             "random templates, crossed with an escaping-mode x finalize table")
 LEVEL_TEXT = ("held for every plain string up to the reported length in all 6 newline "
-              "configurations and on the random texts/templates generated")
+              "configurations and on the random texts/templates generated; the escaping/finalize "
+              "table is exhaustive over its modes for the fixed short sources only")
 ASSUMPTIONS = [
     "default delimiters, no line statements, trim_blocks/lstrip_blocks off (C12 covers them)",
     "line breaks inside a raw block may come out verbatim or converted to newline_sequence "
     "(the documentation does not say; both are accepted, a mixture is not)",
     "'-' modifiers are only used next to whitespace runs made of space, tab, \\n, \\r",
+    "inside an autoescape block the body's last line break no longer ends the template: it is "
+    "expected verbatim, the single-trailing-newline rule applies to the text after the block",
+    "escaping and finalize concern variable expressions only (templates.rst 'HTML Escaping', "
+    "api.rst finalize: 'process the result of a variable expression'); the workload contains no "
+    "expressions, so any difference to the plain rendering is a violation; whether finalize is "
+    "CALLED is not observed, only the output",
 ]
 NSHARDS = {"quick": 16, "thorough": 16}
 BUDGET_S = {"quick": 12, "thorough": 540}
@@ -37,13 +55,28 @@ FLOORS = {
               "counters": {"exh_strings": 10000, "exh_renders": 60000, "random_text_renders": 4000,
                            "template_renders": 4000, "comment_segments": 700,
                            "raw_segments": 700, "trailing_break_cases": 2000,
-                           "mixed_break_cases": 800, "minus_modifier_templates": 100}},
+                           "mixed_break_cases": 800, "minus_modifier_templates": 100,
+                           "mode_renders": 6000, "mode_renders_autoescape_block": 5000,
+                           "mode_renders_env_autoescape": 4000, "mode_renders_finalize": 5000,
+                           "mode_renders_finalize_needs_runtime_context": 2400,
+                           "mode_renders_html_metachar": 4000,
+                           "mode_renders_runtime_autoescape_block": 2500,
+                           "mode_renders_runtime_block_on_html_metachar": 1100,
+                           "mode_systematic_cells": 2000}},
     "thorough": {"evaluations": 700000, "distinct": 80000,
                  "counters": {"exh_strings": 100000, "exh_renders": 600000,
                               "random_text_renders": 30000, "template_renders": 30000,
                               "comment_segments": 15000, "raw_segments": 15000,
                               "trailing_break_cases": 20000, "mixed_break_cases": 8000,
-                              "minus_modifier_templates": 2000}},
+                              "minus_modifier_templates": 2000,
+                              "mode_renders": 30000, "mode_renders_autoescape_block": 25000,
+                              "mode_renders_env_autoescape": 20000,
+                              "mode_renders_finalize": 24000,
+                              "mode_renders_finalize_needs_runtime_context": 12000,
+                              "mode_renders_html_metachar": 20000,
+                              "mode_renders_runtime_autoescape_block": 12000,
+                              "mode_renders_runtime_block_on_html_metachar": 5000,
+                              "mode_systematic_cells": 2000}},
 }
 
 ALPHABET = "a \t{}%#-\n\r"
@@ -63,6 +96,185 @@ def render(env, src):
         return ("ok", env.from_string(src).render())
     except Exception as e:  # noqa: BLE001
         return ("exc", e)
+
+
+# ------------------------------------------------------------------ escaping / finalize modes
+ENV_AUTO = ("off", "on", "select")
+FINALIZE = ("none", "plain", "context", "eval_context", "environment")
+BLOCK_MODES = (None,) + tuple(M.BLOCKS)
+BASE_MODE = ("off", None, "none")
+ALL_MODES = [(a, b, f) for a in ENV_AUTO for b in BLOCK_MODES for f in FINALIZE]
+OTHER_MODES = [m for m in ALL_MODES if m != BASE_MODE]
+HTML_CHARS = "&<>'\""
+
+
+def make_finalizers():
+    """finalize callables of every calling convention; each visibly changes whatever it is
+    given (api.rst: finalize processes "the result of a variable expression" only)."""
+    from jinja2 import pass_context, pass_environment, pass_eval_context
+
+    def plain(value):
+        return f"[{value}]"
+
+    @pass_context
+    def with_context(context, value):
+        return f"[{value}]"
+
+    @pass_eval_context
+    def with_eval_context(eval_ctx, value):
+        return f"[{value}]"
+
+    @pass_environment
+    def with_environment(environment, value):
+        return f"[{value}]"
+
+    return {"none": None, "plain": plain, "context": with_context,
+            "eval_context": with_eval_context, "environment": with_environment}
+
+
+class EnvPool:
+    """Environments per (newline_sequence, keep_trailing_newline, autoescape setting, finalize)."""
+
+    def __init__(self):
+        self.envs = {}
+        self.fin = None
+
+    def get(self, nl, keep, auto="off", fin="none"):
+        k = (nl, keep, auto, fin)
+        if k not in self.envs:
+            from jinja2 import Environment, select_autoescape
+
+            if self.fin is None:
+                self.fin = make_finalizers()
+            a = {"off": False, "on": True,
+                 "select": select_autoescape(default_for_string=True)}[auto]
+            self.envs[k] = Environment(newline_sequence=nl, keep_trailing_newline=keep,
+                                       autoescape=a, finalize=self.fin[fin])
+        return self.envs[k]
+
+
+def render_mode(pool, nl, keep, mode, src):
+    auto, block, fin = mode
+    env = pool.get(nl, keep, auto, fin)
+    try:
+        return ("ok", env.from_string(M.wrap(src, block)).render(flag=M.block_flag(block)))
+    except Exception as e:  # noqa: BLE001
+        return ("exc", e)
+
+
+def mode_expected(exp_fn, mode, nl, keep):
+    """exp_fn(nl, keep) -> set of acceptable outputs of the bare source."""
+    if mode[1] is None:
+        return exp_fn(nl, keep)
+    return M.wrapped_expected(exp_fn(nl, True), mode[1], nl, keep)
+
+
+def blame(mode, fails):
+    """Mechanism part of the key: the smallest subset of the three mode dimensions that still
+    reproduces the failure on this source and configuration, each dimension generalised when
+    its value does not matter (finalize=any: all four calling conventions fail; autoescape-
+    block=runtime: both flag values fail; env-autoescape=enabled: True and select_autoescape)."""
+    auto, block, fin = mode
+
+    def mk(sub, a=auto, b=block, f=fin):
+        return (a if sub[0] else "off", b if sub[1] else None, f if sub[2] else "none")
+
+    present = (auto != "off", block is not None, fin != "none")
+    chosen = present
+    for sub in ((0, 0, 1), (0, 1, 0), (1, 0, 0), (0, 1, 1), (1, 0, 1), (1, 1, 0)):
+        if any(u and not p for u, p in zip(sub, present)) or tuple(map(bool, sub)) == present:
+            continue
+        if fails(mk(sub)):
+            chosen = sub
+            break
+    parts = []
+    if chosen[0]:
+        other = "select" if auto == "on" else "on"
+        parts.append("env-autoescape=" + ("enabled" if fails(mk(chosen, a=other)) else auto))
+    if chosen[1]:
+        b = block.replace("+ctx", "")
+        if b.startswith("rt-"):
+            ctxs = "+ctx" if block.endswith("+ctx") and (b + "+ctx") in M.BLOCKS else ""
+            flip = {"rt-true": "rt-false", "rt-false": "rt-true"}[b]
+            flip = flip + ctxs if (flip + ctxs) in M.BLOCKS else flip
+            b = "runtime" if fails(mk(chosen, b=flip)) else b
+        parts.append("autoescape-block=" + b)
+    if chosen[2]:
+        every = all(fails(mk(chosen, f=f)) for f in FINALIZE[1:] if f != fin)
+        parts.append("finalize=" + ("any" if every else fin))
+    return "+".join(parts)
+
+
+def mode_classify(got, exps):
+    import html
+
+    if got[0] == "exc":
+        return "raises:" + type(got[1]).__name__
+    out = str(got[1])
+    n = lambda s: M.normalize(s, "\n")  # noqa: E731
+    if any(n(out) == n(e) for e in exps):
+        return "newline-form"
+    if any(n(html.unescape(out)) == n(e) for e in exps):
+        return "html-escaped"
+    if any(n(out).rstrip("\n") == n(e).rstrip("\n") for e in exps):
+        return "trailing-newline"
+    return "content"
+
+
+def check_modes(ctx, pool, keyprefix, src, last_text, exp_fn, combos, case):
+    """Render `src` under (newline config, escaping/finalize mode) combinations other than the
+    base mode: the text, comments and raw bodies are not expressions, so neither escaping nor
+    finalize may touch them."""
+    meta = any(c in src for c in HTML_CHARS)
+    memo = {}
+    blamed = {}
+    for nl, keep, mode in combos:
+        mode = tuple(mode)
+        auto, block, fin = mode
+        if block is not None and not M.wrappable(last_text):
+            ctx.count("mode_block_not_applicable")
+            continue
+
+        def fails(m, nl=nl, keep=keep):
+            k = (nl, keep, m)
+            if k not in memo:
+                g = render_mode(pool, nl, keep, m, src)
+                memo[k] = not (g[0] == "ok" and g[1] in mode_expected(exp_fn, m, nl, keep))
+            return memo[k]
+
+        exps = mode_expected(exp_fn, mode, nl, keep)
+        got = render_mode(pool, nl, keep, mode, src)
+        ctx.ev()
+        ctx.count("mode_renders")
+        if meta:
+            ctx.count("mode_renders_html_metachar")
+        if auto != "off":
+            ctx.count("mode_renders_env_autoescape")
+        if block:
+            ctx.count("mode_renders_autoescape_block")
+            if block.startswith("rt-"):
+                ctx.count("mode_renders_runtime_autoescape_block")
+                if meta and M.block_flag(block):
+                    ctx.count("mode_renders_runtime_block_on_html_metachar")
+        if fin != "none":
+            ctx.count("mode_renders_finalize")
+            if fin in ("context", "eval_context"):
+                ctx.count("mode_renders_finalize_needs_runtime_context")
+        if not (got[0] == "ok" and got[1] in exps):
+            what = mode_classify(got, exps)
+            if (what, mode) not in blamed:     # same source, same mode: one mechanism
+                blamed[(what, mode)] = blame(mode, fails)
+            ctx.violation(f"{keyprefix}:{what}:{blamed[(what, mode)]}",
+                          f"source {M.wrap(src, block)!r} in Environment(newline_sequence={nl!r}, "
+                          f"keep_trailing_newline={keep}, autoescape={auto}, finalize={fin})"
+                          f"{' rendered with flag=%s' % M.block_flag(block) if block and block.startswith('rt-') else ''}"
+                          f": rendered {got[1]!r}, expected one of {sorted(exps)!r} (template text, "
+                          f"comments and raw bodies are not expression results)",
+                          dict(case, nl=nl, keep=keep, mode=list(mode)))
+
+
+def sample_combos(rng, k):
+    return [rng.choice(CONFIGS) + (rng.choice(OTHER_MODES),) for _ in range(k)]
 
 
 def classify_plain(src, exp, got):
@@ -85,7 +297,11 @@ def break_forms(src):
     return "+".join(NLNAME[f] for f in forms) or "none"
 
 
-def check_plain(ctx, envs, src, counter, dist=True):
+def check_plain(ctx, envs, src, counter, dist=True, pool=None, combos=()):
+    if combos:
+        check_modes(ctx, pool, "plain", src, src,
+                    lambda nl, keep: {M.plain_expected(src, nl, keep)}, combos,
+                    {"kind": "plain", "src": src})
     nbreaks = len(M.BREAK.findall(src))
     trailing = M.strip_one_trailing_break(src) != src
     for (nl, keep), env in envs.items():
@@ -140,7 +356,8 @@ UNI = "\xe9\xdf\u03bb\u0436\u4e2d\U0001f600\xa0\u3000\ufeff\u200b"
 NOTBREAK = "\x0b\x0c\x1c\x1d\x1e\x85\u2028\u2029"
 CTRL = "\x00\x01\x07\x08\x1b\x1f\x7f"
 PARTIAL = ["{", "}", "%", "#", "-", "+", "}}", "%}", "#}", "-%}", "-}}", "-#}", "{ {", "{ %",
-           "{ #", "{-", "\\", "'", '"', "raw", "endraw", "% raw %", "{x{"]
+           "{ #", "{-", "\\", "'", '"', "raw", "endraw", "% raw %", "{x{",
+           "&", "<", ">", "&amp;", "<b>", "</p>", "&#39;", "<!-- & -->", "<a href=\"x?a=1&b='2'\">"]
 BREAKS = ["\n", "\r\n", "\r", "\n\r", "\r\r\n", "\n\n", "\r\n\r\n", "\r\r"]
 
 
@@ -173,14 +390,15 @@ def rand_text(rng, maxparts, safe_only=False):
         s = s[: m.start() + 1] + " " + s[m.start() + 1:]
 
 
-def run_random_text(ctx, envs, rng, n):
+def run_random_text(ctx, envs, rng, n, pool, mrng):
     i = 0
     while ctx.more(i, n, min(n, 60)):
         i += 1
         s = rand_text(rng, rng.choice([3, 8, 20, 60]))
         if rng.random() < 0.5:
             s += rng.choice(BREAKS + [" \n", "\n ", "\x0b", "\x85", " ", "\x0c\n"])
-        check_plain(ctx, envs, s, "random_text_renders")
+        check_plain(ctx, envs, s, "random_text_renders", pool=pool,
+                    combos=sample_combos(mrng, MODE_SAMPLES))
         if i <= 2 and ctx.shard == 0:
             ctx.sample({"kind": "plain", "src": s})
 
@@ -275,11 +493,18 @@ def tmpl_mode(segments, got, exps):
     return "content"
 
 
-def check_template(ctx, envs, segments, cfgs=None):
+def check_template(ctx, envs, segments, cfgs=None, pool=None, combos=()):
     src = M.source_of(segments)
     kinds = sorted({s[0] for s in segments if s[0] != "text"})
     mods = sorted({"comment-minus" for s in segments if s[0] == "comment" and (s[2] or s[3])}
                   | {"raw-minus" for s in segments if s[0] == "raw" and s[4]})
+    if combos:
+        last = segments[-1][1] if segments[-1][0] == "text" else ""
+        check_modes(ctx, pool, "template", src, last,
+                    lambda nl, keep: M.expected(segments, nl, keep), combos,
+                    {"kind": "template", "segments": [list(s) for s in segments]})
+        if cfgs == []:
+            return
     for (nl, keep), env in envs.items():
         if cfgs is not None and [nl, keep] not in cfgs:
             continue
@@ -300,7 +525,7 @@ def check_template(ctx, envs, segments, cfgs=None):
     ctx.dist(("t", src))
 
 
-def run_templates(ctx, envs, rng, n):
+def run_templates(ctx, envs, rng, n, pool, mrng):
     i = done = 0
     while ctx.more(done, n, min(n, 60)) and i < n * 5:
         i += 1
@@ -309,7 +534,7 @@ def run_templates(ctx, envs, rng, n):
             ctx.count("template_draws_rejected")
             continue
         done += 1
-        check_template(ctx, envs, segs)
+        check_template(ctx, envs, segs, pool=pool, combos=sample_combos(mrng, MODE_SAMPLES))
         if done <= 2 and ctx.shard == 0:
             ctx.sample({"kind": "template", "src": M.source_of(segs)})
 
@@ -326,14 +551,66 @@ FIXED_TEMPLATES = [
 ]
 
 
+# ------------------------------------------------------------------ systematic mode section
+MODE_SAMPLES = 4          # (config, mode) combinations drawn per random text / template
+MODE_ALPHABET = "a&<>'\"\n"
+MODE_TEMPLATES = [
+    [("text", "<a href=\"?x=1&y='2'\">"), ("comment", " <c> & \"d\" ", False, False),
+     ("text", "'q' & </a>\n")],
+    [("raw", "<{{ x }}> & \"r\" {% if %}\r\n'", "{% raw %}", "{% endraw %}", False),
+     ("text", "\n")],
+    [("text", "x < y\r\n"), ("raw", " \n & {{ '<' }}", "{% raw -%}", "{% endraw %}", True),
+     ("comment", "&", True, True), ("text", " \n&amp;\n")],
+    [("comment", "<!-- -->", False, False), ("text", "")],
+    [("text", "1 < 2 && 3 > 2"), ("raw", "", "{%raw%}", "{%endraw%}", False),
+     ("text", " \"ok\" 'ok'\r")],
+    [("raw", "&lt;already&gt; &amp; <not>", "{% raw %}", "{%- endraw %}", False), ("text", "&")],
+]
+
+
+def mode_texts():
+    """every string of length <= 1 over the HTML alphabet + pairs that put a metacharacter next
+    to a line break / another metacharacter"""
+    out = [""] + list(MODE_ALPHABET)
+    out += ["a&", "<a>", "&\n", "\n<", "'\"", "&&", "\r\n>", "&amp;", "<\n\n"]
+    return out
+
+
+def run_modes_systematic(ctx, envs, pool):
+    """Every short text over the HTML-metacharacter alphabet and every fixed template under
+    EVERY (env autoescape x autoescape block x finalize) mode x every newline configuration."""
+    idx = 0
+    items = [("p", t) for t in mode_texts()] + [("t", segs) for segs in MODE_TEMPLATES]
+    for kind, item in items:
+        for mode in OTHER_MODES:
+            idx += 1
+            if not ctx.mine(idx):
+                continue
+            combos = [(nl, keep, mode) for nl, keep in CONFIGS]
+            ctx.count("mode_systematic_cells")
+            if kind == "p":
+                check_modes(ctx, pool, "plain", item, item,
+                            lambda nl, keep, item=item: {M.plain_expected(item, nl, keep)},
+                            combos, {"kind": "plain", "src": item})
+                if item or mode[1]:
+                    ctx.dist(("pm", item, list(mode)))
+            else:
+                check_template(ctx, envs, item, cfgs=[], pool=pool, combos=combos)
+                ctx.dist(("tm", M.source_of(item), list(mode)))
+    ctx.extra["mode_table_cells"] = idx if ctx.shard == 0 else 0
+
+
 def run(ctx):
     envs = make_envs()
+    pool = EnvPool()
     quick = ctx.tier == "quick"
     for j, segs in enumerate(FIXED_TEMPLATES):
         if ctx.mine(j):
             check_template(ctx, envs, segs)
-    run_random_text(ctx, envs, ctx.rng("text"), 100 if quick else 1500)
-    run_templates(ctx, envs, ctx.rng("tmpl"), 100 if quick else 1500)
+    run_modes_systematic(ctx, envs, pool)
+    mrng = ctx.rng("mode")
+    run_random_text(ctx, envs, ctx.rng("text"), 100 if quick else 1500, pool, mrng)
+    run_templates(ctx, envs, ctx.rng("tmpl"), 100 if quick else 1500, pool, mrng)
     # exhaustive part last: lengths <= 4 (quick) / <= 5 (thorough) always complete, the final
     # length is time-boxed and the completed length is reported
     done = run_exhaustive(ctx, envs, EXH_LEN[ctx.tier], timebox_from=5 if quick else 6)
@@ -343,6 +620,18 @@ def run(ctx):
 
 def replay(ctx, case):
     envs = make_envs()
+    if case.get("mode"):
+        pool = EnvPool()
+        combos = [(case["nl"], case["keep"], tuple(case["mode"]))]
+        if case["kind"] == "plain":
+            src = case["src"]
+            check_modes(ctx, pool, "plain", src, src,
+                        lambda nl, keep: {M.plain_expected(src, nl, keep)}, combos,
+                        {"kind": "plain", "src": src})
+        else:
+            segs = [tuple(s) for s in case["segments"]]
+            check_template(ctx, envs, segs, cfgs=[], pool=pool, combos=combos)
+        return
     if case["kind"] == "plain":
         check_plain(ctx, {(case["nl"], case["keep"]): envs[(case["nl"], case["keep"])]},
                     case["src"], "replay", dist=False)
